@@ -10,6 +10,7 @@
      Split    an item moved into a new last file          (the files are merged in order)
      Merge    two neighbouring files joined
      Dyn      all blocks of one type in a file replaced by one dynamic block over the same values
+     Inner    the blocks nested inside such a dynamic block written as dynamic blocks as well, iterator named like the outer one
      Undyn    the reverse
      Reorder  the attributes of a body written in another order / after the blocks
      Lay      comments, blank lines, spacing, formatting changed
@@ -33,7 +34,7 @@ Tm(sp, meaning) == [t |-> "str", v |-> <<meaning>>, sp |-> sp]
 Plain(val) == [t |-> val.t, v |-> val.v]
 Attr(n, v) == [k |-> "attr", name |-> n, val |-> v]
 Blk(t, labels, body) == [k |-> "block", type |-> t, labels |-> labels, body |-> body]
-DynOf(t, each) == [k |-> "dyn", type |-> t, each |-> each]
+DynOf(t, each) == [k |-> "dyn", type |-> t, each |-> each, inner |-> FALSE]     \* inner: its nested blocks are dynamic blocks too, iterating under the same name
 File(syn, lay, items) == [syn |-> syn, lay |-> lay, items |-> items]
 
 (* ---------------------------------------------------------------- meaning *)
@@ -92,6 +93,12 @@ Dyn(f, t) == /\ CanDyn(f, t)
              /\ LET ix == IdxOf(f, t)  lo == CHOOSE i \in ix : \A j \in ix : i <= j  hi == CHOOSE i \in ix : \A j \in ix : j <= i IN
                 files' = [files EXCEPT ![f].items = SubSeq(@, 1, lo - 1) \o <<DynOf(t, SubSeq(@, lo, hi))>> \o SubSeq(@, hi + 1, Len(@))]
              /\ Log([rw |-> "Dyn", f |-> f, t |-> t])
+(* the blocks nested in the blocks of a dynamic block become dynamic blocks themselves (one element each), with the iterator
+   named like the enclosing one: inside, the name means the inner element *)
+HasSubs(b) == \E i \in 1..Len(b.body) : b.body[i].k = "block"
+Inner(f, i) == /\ files[f].items[i].k = "dyn" /\ ~files[f].items[i].inner /\ HasSubs(files[f].items[i].each[1])
+               /\ files' = [files EXCEPT ![f].items[i].inner = TRUE]
+               /\ Log([rw |-> "Inner", f |-> f, i |-> i])
 Undyn(f, i) == /\ files[f].items[i].k = "dyn"
                /\ files' = [files EXCEPT ![f].items = SubSeq(@, 1, i - 1) \o @[i].each \o SubSeq(@, i + 1, Len(@))]
                /\ Log([rw |-> "Undyn", f |-> f, i |-> i])
@@ -108,7 +115,7 @@ Lay(f) == /\ files' = [files EXCEPT ![f].lay = (@ + 1) % 3]
           /\ Log([rw |-> "Lay", f |-> f])
 Next == \E f \in 1..Len(files) :
            \/ Syn(f) \/ Merge(f) \/ Reorder(f) \/ Lay(f)
-           \/ \E i \in 1..Len(files[f].items) : Split(f, i) \/ Undyn(f, i) \/ ReorderIn(f, i)
+           \/ \E i \in 1..Len(files[f].items) : Split(f, i) \/ Undyn(f, i) \/ ReorderIn(f, i) \/ Inner(f, i)
            \/ \E t \in BlockTypes(files[f].items) : Dyn(f, t)
 (* ---------------------------------------------------------------- properties of the rewrite system itself *)
 MeaningKept == Meaning(files) = Meaning(base)
